@@ -169,7 +169,7 @@ def c01_replay(path):
 LIN_TYPES = ["queue", "lqueue", "stack", "lstack", "heap", "bst", "trie", "cache"]
 
 
-def c02_engine(prop, cfg, tier, seed, only=None):
+def c02_engine(prop, cfg, tier, seed, only=None, crosscheck=True):
     """Exhaustive interleavings at critical-section granularity: the container packages of REPO are copied to a
     scratch tree with their `sync` import redirected to the cooperative-scheduler shim; every schedule of every small
     program is executed and each history is checked for linearizability by the Lean driver (sequential monitors as
@@ -201,7 +201,8 @@ def c02_engine(prop, cfg, tier, seed, only=None):
                 collect(rr, "vsync/" + t, lines, prc, "" if m else err, "vsync/" + t)
         res["runresult"] = rr
         res["detail"]["vsync"] = stats
-        res["detail"]["lock_table_crosscheck"] = crosscheck_lock_table(observed, res, prop)
+        if crosscheck:          # (a replay does not regenerate the table)
+            res["detail"]["lock_table_crosscheck"] = crosscheck_lock_table(observed, res, prop)
         res["detail"]["interleavings_executed"] = sum(v["executions"] for v in stats.values())
     finally:
         shutil.rmtree(scratch, ignore_errors=True)
@@ -252,11 +253,11 @@ def crosscheck_lock_table(observed, res, prop):
     return dict(status="disagreement" if bad else "ok", method_patterns_checked=checked, disagreements=bad[:10])
 
 
-def c02_replay(path):
+def c02_replay(path, prop="C02"):
     txt = open(path).read()
     m = re.search(r"^CASE lin (\S+)", txt, re.M)
     only = m.group(1) if m else None
-    r = c02_engine("C02", {}, "quick", 1, only=only)
+    r = c02_engine(prop, {}, "quick", 1, only=only, crosscheck=False)
     rr = r.get("runresult")
     bad = bool(r["violations"]) or (rr is not None and bool(rr.spec))
     if rr is not None:
@@ -265,8 +266,14 @@ def c02_replay(path):
             for l in rr.traces.get((s["shard"], s["case"]), []):
                 print("   ", l)
     if bad:
-        print(f"VIOLATION property=C02 replay={path}")
+        print(f"VIOLATION property={prop} replay={path}")
     return 1 if bad else 0
+
+
+# Properties that are stated about the sequential behaviour of cache/cache.go but are relied upon while the
+# background cleanup goroutine (DeleteExpired) runs concurrently with the callers: the interleavings of the cache
+# operations are explored for them too (same engine as C02, cache programs only).
+CACHE_LIN_PROPS = {"C08", "C18"}
 
 
 # --------------------------------------------------------------------------------------- dispatch
@@ -276,12 +283,14 @@ def run_engines(prop, cfg, tier, seed):
         return c01_engine(prop, cfg, tier, seed)
     if prop == "C02":
         return c02_engine(prop, cfg, tier, seed)
+    if prop in CACHE_LIN_PROPS:
+        return c02_engine(prop, cfg, tier, seed, only="cache")
     return None
 
 
 def replay(prop, cfg, path):
     if prop == "C01":
         return c01_replay(path)
-    if prop == "C02":
-        return c02_replay(path)
+    if prop == "C02" or "\nCASE lin " in "\n" + open(path).read():
+        return c02_replay(path, prop)
     return 0
